@@ -101,8 +101,8 @@ def _field_node(kinds=None):
 
 def strategy(tier):
     def build(node):
-        sv = specs.values(node)
-        strings = sv.filter(lambda v: isinstance(v, str) and "\x00" not in v and _encodable(v))
+        sv = st.one_of(specs.values(node), specs.values(node), specs.values(node), st.none())  # (an explicit null in a document, too)
+        strings = specs.values(node).filter(lambda v: isinstance(v, str) and "\x00" not in v and _encodable(v))
         var = st.one_of(st.just(None), st.just(""), strings, strings, strings)
         op = st.one_of(
             st.fixed_dictionaries({"op": st.just("load_tree"), "value": sv, "with_sibling": st.booleans()}),
@@ -136,7 +136,9 @@ def exhaustive(tier):
                     decls = ("explicit", "chain", "item") if depth > 1 and all(env is None for env in levels[1:]) else ("explicit",)
                     for decl in decls:
                         yield {"levels": list(levels), "fenv": fenv, "node": node, "var": var, "sibling_var": None, "decl": decl,
-                               "ops": [{"op": "load_tree", "value": 7, "with_sibling": True}, {"op": "assign", "value": 9, "how": "setattr"}, {"op": "loads", "fmt": "json", "value": 11}]}
+                               "ops": [{"op": "load_tree", "value": 7, "with_sibling": True}, {"op": "load_tree", "value": None, "with_sibling": True},
+                                       {"op": "loads", "fmt": "yaml", "value": None, "with_sibling": False},
+                                       {"op": "assign", "value": 9, "how": "setattr"}, {"op": "loads", "fmt": "json", "value": 11}]}
 
 
 def _build(cc, case, with_env):
